@@ -65,11 +65,22 @@ func parseRequest(b []byte) (key, ver int16, cid int32, token int, ok bool) {
 	body := b[off:]
 	token = -1
 	switch key {
-	case 3: // MetadataRequest v0: array of topic names, first is "t<token>"
+	case 3, 15: // MetadataRequest v0 / DescribeGroupsRequest v0: array of names, first is "t<token>" / "d<token>"
 		if len(body) >= 6 {
 			n := int(binary.BigEndian.Uint16(body[4:]))
-			if 6+n <= len(body) {
-				fmt.Sscanf(string(body[6:6+n]), "t%d", &token)
+			if 6+n <= len(body) && n >= 2 {
+				fmt.Sscanf(string(body[7:6+n]), "%d", &token)
+			}
+		}
+	case 1: // FetchRequest v0: replica id, MaxWaitTime = token
+		if len(body) >= 8 {
+			token = int(int32(binary.BigEndian.Uint32(body[4:])))
+		}
+	case 11, 14: // JoinGroupRequest v0 / SyncGroupRequest v0: group id, then SessionTimeout / GenerationId = token
+		if len(body) >= 2 {
+			n := int(binary.BigEndian.Uint16(body))
+			if 2+n+4 <= len(body) {
+				token = int(int32(binary.BigEndian.Uint32(body[2+n:])))
 			}
 		}
 	case 10: // FindCoordinatorRequest v0: key "k<token>"
